@@ -55,7 +55,7 @@ mpf_out_str (FILE *stream, int base, size_t n_digits, mpf_srcptr op)
   if (base == 0)
     base = 10;
   if (n_digits == 0)
-    MPF_SIGNIFICANT_DIGITS (n_digits, base, op->_mp_prec);
+    MPF_SIGNIFICANT_DIGITS (n_digits, ABS (base), op->_mp_prec);
 
   if (stream == 0)
     stream = stdout;
@@ -100,7 +100,7 @@ mpf_out_str (FILE *stream, int base, size_t n_digits, mpf_srcptr op)
   /* Write exponent */
   {
     int fpret;
-    fpret = fprintf (stream, (base <= 10 ? "e%ld" : "@%ld"), exp);
+    fpret = fprintf (stream, (ABS (base) <= 10 ? "e%ld" : "@%ld"), exp);
     written += fpret;
   }
 
